@@ -593,6 +593,10 @@ pub fn eval_fcase(c: &FCase, prop: &str) -> Result<FInfo, Verdict> {
         };
         let recs = shared.drain();
         let t_after = to_off(w.sim.time());
+        if let Some(text) = shared.nested_err.lock().unwrap().take() {
+            drop_world(w, &shared);
+            return Err(ffail(&["C06", "C11"], "inner-run-misreported", format!("command #{} {:?}: {}", i - 1, cmd, text)));
+        }
         if is_post {
             info.post_calls += 1;
             post_kinds.insert(std::mem::discriminant(cmd));
